@@ -880,8 +880,44 @@ fn cmd_bits(toks: &[&str]) -> String {
       let ops: Vec<String> = toks[1..].iter().map(|s| s.to_string()).collect();
       q_compress::verif::writer_script(&ops).join(" ; ")
     }
+    // bodywrite <bits> <unsigneds hex,..|-> <count:lower:upper:code:jump:gcd> ...
+    "bodywrite" => {
+      let bits: usize = toks[1].parse().unwrap();
+      let us: Vec<u128> = if toks[2] == "-" { Vec::new() } else { toks[2].split(',').map(|x| u128::from_str_radix(x, 16).unwrap()).collect() };
+      let ps: Vec<q_compress::verif::VPrefix> = toks[3..].iter().map(|t| vprefix(t)).collect();
+      q_compress::verif::body_writer_script(bits, &ps, &us)
+    }
+    // numdec <bits> <n> <n_processed> <inc idx:reps|-> <limit> <eoi> <bit_idx> <bytes hex|-> <prefix> ...
+    "numdec" => {
+      let bits: usize = toks[1].parse().unwrap();
+      let n: usize = toks[2].parse().unwrap();
+      let np: usize = toks[3].parse().unwrap();
+      let inc = if toks[4] == "-" { None } else {
+        let mut it = toks[4].split(':');
+        Some((it.next().unwrap().parse::<usize>().unwrap(), it.next().unwrap().parse::<usize>().unwrap()))
+      };
+      let limit: usize = toks[5].parse().unwrap();
+      let eoi = toks[6] == "1";
+      let bit_idx: usize = toks[7].parse().unwrap();
+      let bytes = if toks[8] == "-" { Vec::new() } else { hex_to_bytes(toks[8]) };
+      let ps: Vec<q_compress::verif::VPrefix> = toks[9..].iter().map(|t| vprefix(t)).collect();
+      q_compress::verif::num_decompressor_script(bits, &ps, n, np, inc, limit, eoi, &bytes, bit_idx)
+    }
     _ => "bad-op".to_string(),
   }
+}
+
+#[cfg(mwlon_quantile_compression_verif)]
+fn vprefix(t: &str) -> q_compress::verif::VPrefix {
+  let f: Vec<&str> = t.split(':').collect();
+  (
+    f[0].parse().unwrap(),
+    u128::from_str_radix(f[1], 16).unwrap(),
+    u128::from_str_radix(f[2], 16).unwrap(),
+    f[3].chars().map(|c| c == '1').collect(),
+    if f[4] == "-" { None } else { Some(f[4].parse().unwrap()) },
+    u128::from_str_radix(f[5], 16).unwrap(),
+  )
 }
 
 #[cfg(not(mwlon_quantile_compression_verif))]
@@ -909,7 +945,7 @@ fn answer(line: &str) -> String {
       "mt" => dispatch!(toks[1], cmd_mt, &toks[2..]),
       "bigrt" => dispatch!(toks[1], cmd_bigrt, &toks[2..]),
       "ts" => cmd_ts(&toks[1..]),
-      "bwords" | "bread" | "bwrite" => cmd_bits(&toks),
+      "bwords" | "bread" | "bwrite" | "bodywrite" | "numdec" => cmd_bits(&toks),
       _ => "bad-op".to_string(),
     }
   }));
